@@ -16,6 +16,9 @@ import (
 	"golang.org/x/tools/go/ssa"
 )
 
+// explorerBoost is added to every rule's per-path block visit bound (set by the thorough tier).
+var explorerBoost = 0
+
 type Nilness int
 
 const (
@@ -415,6 +418,7 @@ func Explore(fn *ssa.Function, b *ssa.BasicBlock, idx int, pred *ssa.BasicBlock,
 	if max == 0 {
 		max = 2
 	}
+	max += explorerBoost // thorough tier: one more loop iteration per path
 	if h.MaxPaths == 0 {
 		h.MaxPaths = 200000
 	}
